@@ -14,16 +14,24 @@ Spec == Init /\ [][Next]_l
 (* the accept set arrives as a JSON array *)
 Norm(c) == [c EXCEPT !.accepts = Range(@)]
 
-Failed(line) ==
-   LET c == Norm(line.c)  fp == FailingParts(c)  got == {line.parts[i] : i \in DOMAIN line.parts} IN
-   IF line.doc # "ok" THEN {"document_rejected"}
-   ELSE IF line.verdict \in {"panic", "crash", "hang"} THEN {"no_panic"}
-   ELSE (IF fp = {} /\ line.verdict # "ok" THEN {"passes_when_all_parts_pass"} ELSE {})
-        \cup (IF fp # {} /\ line.verdict = "ok" THEN {"fails_when_a_part_fails"} ELSE {})
-        \cup (IF fp # {} /\ line.verdict = "error" /\ c.multi /\ ~(got = fp /\ Len(line.parts) = Cardinality(fp))
+FailedOf(c, verdict, parts) ==
+   LET fp == FailingParts(c)  got == {parts[i] : i \in DOMAIN parts} IN
+   IF verdict \in {"panic", "crash", "hang"} THEN {"no_panic"}
+   ELSE (IF fp = {} /\ verdict # "ok" THEN {"passes_when_all_parts_pass"} ELSE {})
+        \cup (IF fp # {} /\ verdict = "ok" THEN {"fails_when_a_part_fails"} ELSE {})
+        \cup (IF fp # {} /\ verdict = "error" /\ c.multi /\ ~(got = fp /\ Len(parts) = Cardinality(fp))
               THEN {"multi_errors_are_exactly_failing_parts"} ELSE {})
-        \cup (IF fp # {} /\ line.verdict = "error" /\ ~c.multi /\ ~(got \subseteq fp)
+        \cup (IF fp # {} /\ verdict = "error" /\ ~c.multi /\ ~(got \subseteq fp)
               THEN {"error_names_a_failing_part"} ELSE {})
+
+(* the same request is validated again after the document has served a validation with every exclusion option on:    *)
+(* the answer is a function of the request, the document and the options of THIS call                                 *)
+Failed(line) ==
+   LET c == Norm(line.c) IN
+   IF line.doc # "ok" THEN {"document_rejected"}
+   ELSE FailedOf(c, line.verdict, line.parts)
+        \cup (IF "verdict3" \in DOMAIN line /\ FailedOf(c, line.verdict3, line.parts3) # {} THEN {"same_answer_after_a_validation_with_other_options"} ELSE {})
+        \cup (IF "docSame" \in DOMAIN line /\ ~line.docSame THEN {"document_unchanged"} ELSE {})
 
 LineOK(line) ==
    LET bad == Failed(line) IN
